@@ -182,6 +182,39 @@ def roundtrip(ctx, cs, seed):
                   lambda: {'got': lt[:3], 'want': wt[:3]})
     # messages created outside any call still use latin1 while a file with another charset exists
     ctx.check('default charset after successful call', probe() is None, f'leak:{cs}', case, probe())
+    # the same file again, other ways: by name onto a fresh path, onto the path that now exists (twice), the file
+    # object after a round through copy / deepcopy / pickle, a loaded file saved again - always the same bytes
+    import copy
+    import os
+    import pickle
+    import tempfile
+    fd, path = tempfile.mkstemp(suffix='.mid', prefix='vmon-c17-')
+    os.close(fd)
+    os.remove(path)
+    try:
+        variants = [('save(path) fresh', mid), ('save(path) existing', mid), ('save(path) existing again', mid),
+                    ('copy.copy', copy.copy(mid)), ('copy.deepcopy', copy.deepcopy(mid)),
+                    ('pickle', pickle.loads(pickle.dumps(mid))), ('loaded', MidiFile(file=io.BytesIO(b), charset=cs))]
+        for label, obj in variants:
+            try:
+                if label.startswith('save(path)'):
+                    obj.save(path)
+                    with open(path, 'rb') as f:
+                        got_b = f.read()
+                else:
+                    out = io.BytesIO()
+                    obj.save(file=out)
+                    got_b = out.getvalue()
+                ctx.check('file payload == text.encode(charset)', got_b == b and getattr(obj, 'charset', None) == cs,
+                          f'same-file-other-way:{label}', case,
+                          lambda: {'how': label, 'charset_of_object': getattr(obj, 'charset', None), 'len': [len(got_b), len(b)]})
+            except Exception as exc:
+                ctx.fail('file payload == text.encode(charset)', f'same-file-other-way:{label}:{type(exc).__name__}', case,
+                         f'{type(exc).__name__}: {exc}')
+            check_probe(ctx, 'default charset after successful call', f'leak-after:{label}', case)
+    finally:
+        if os.path.exists(path):
+            os.remove(path)
 
 
 def reassigned_charset(ctx, cs_a, cs_b, seed):
